@@ -498,6 +498,12 @@ def c03(tier):
             sc = {"cfgs": cf(n), "alphabet": A, "unit": 1, "maxlen": L, "prefix": p1, "maxmag": mm}
             sc2 = dict(sc); sc2["prefix"] = p2
             run.submit(p1_job, "mem-n%d-p%d" % (n, i), "MC_C03", sc, scope2=sc2, nontrivial_keys=("agree",))
+    # the f32 instantiation and the optimised build (first three prefix pairs)
+    for i, (p1, p2) in enumerate(pairs[:3]):
+        mm = max([abs(x) for x in p1 + p2 + [3]])
+        for tag, extra, kw in (("f32", {"float": "f32", "eps": [1, 100000]}, {}), ("release", {}, {"profile": "release"})):
+            sc = dict({"cfgs": cf(3), "alphabet": [-2, 0, 3], "unit": 1, "maxlen": 6, "prefix": p1, "maxmag": mm}, **extra)
+            run.submit(p1_job, "mem-%s-p%d" % (tag, i), "MC_C03", sc, scope2=dict(sc, prefix=p2), nontrivial_keys=("agree",), **kw)
     return run.finish("two real runs with different prefixes (lengths 0..12, magnitudes up to 1e6) and every common suffix over the alphabet; "
                       "non-trivial = states with at least K common values in which the view is not holding")
 
